@@ -34,12 +34,13 @@ Definition scall_eqb (a b : scall) : bool :=
   | _, _ => false
   end.
 
-(* (insecure, literal_plus, valid date strings, start state 0/1/2, stream,
+(* (insecure, literal_plus, valid date strings, mailboxes on which the backend's Append fails,
+    start state 0/1/2, stream,
     observed tokens (None = not compared: the client cut the connection), observed calls) *)
-Definition sf_case := (bool * bool * list bytes * N * bytes * option (list tok) * list scall)%type.
+Definition sf_case := (bool * bool * list bytes * list bytes * N * bytes * option (list tok) * list scall)%type.
 Definition sf_ok (c : sf_case) : bool :=
-  let '(ins, lp, dates, st0, s, otoks, calls) := c in
-  let cfg := mkFcfg ins lp false (fun d => existsb (bytes_eqb d) dates) in
+  let '(ins, lp, dates, afail, st0, s, otoks, calls) := c in
+  let cfg := mkFcfg ins lp false (fun d => existsb (bytes_eqb d) dates) (fun m => existsb (bytes_eqb m) afail) in
   let f := run_stream cfg (match st0 with 0 => SNotAuth | 1 => SAuth | _ => SSelected end) s in
   match otoks with
   | Some ts => list_eqb tok_eqb (toks (rev (fs_out f))) ts
@@ -47,5 +48,11 @@ Definition sf_ok (c : sf_case) : bool :=
   end &&
   (* the Idle call runs in its own goroutine: its position among the calls is a scheduling
      matter, so it is left out of the comparison on both sides *)
-  list_eqb scall_eqb (filter (fun k => match k with SIdle => false | _ => true end) (rev (fs_calls f))) calls.
+  (* a backend that refuses an APPEND does so without reading the message: its payload is not
+     observed, so it is blanked on the model's side *)
+  list_eqb scall_eqb
+    (map (fun k => match k with
+                   | SAppend m fl d p => if f_append_fails cfg m then SAppend m fl d [] else k
+                   | _ => k end)
+         (filter (fun k => match k with SIdle => false | _ => true end) (rev (fs_calls f)))) calls.
 Definition sf_mismatches (cs : list sf_case) : list N := idx_filter sf_ok 0 cs.
